@@ -217,7 +217,7 @@ def main(argv):
     try:
         if argv[0] == "--setup":
             build_harness(verbose=True)
-            for extra in ("vts", "vcert"):
+            for extra in ("vts", "vcert", "vproc"):
                 try:
                     build_harness(verbose=True, pkg=extra)
                 except Machinery as e:
